@@ -76,6 +76,14 @@ class Ctx:
         self.w = w_bytes
         self.decls = []
         self.fresh_n = 0
+        self.ops = None      # OpsContext fields: {0: min_accessed, 1: max_accessed} (smt terms)
+        self.opwords = {}    # operand word k of the threaded code at ip: smt term
+        self.cuts = set()    # (function, block) loop heads: a second arrival ends the path as a cut
+
+    def opword(self, k):
+        if k not in self.opwords:
+            self.opwords[k] = self.fresh("opword%d" % k)
+        return self.opwords[k]
 
     def fresh(self, name, sort="(_ BitVec 64)"):
         self.fresh_n += 1
@@ -94,6 +102,7 @@ class Path:
 
     def clone(self):
         p = Path(self.ctx, self.mem, self.cond, self.events)
+        p.visits = dict(getattr(self, "visits", {}))
         return p
 
 
@@ -134,9 +143,14 @@ class Exec:
         m = re.fullmatch(r"\(\(\*(_\d+)\)\.(\d+): [^)]*\)", place)
         if m:
             base = env.get(m.group(1))
+            k = int(m.group(2))
+            if base == ("ref_ops",) and k in (0, 1) and place.endswith(": isize)"):
+                return ("bv", self.ctx.ops[k])
+            if isinstance(base, tuple) and base[0] == "ipref" and k == 1 and place.endswith(": isize)"):
+                # the `off` member of the OpCode union at ip + base[1]
+                return ("bv", self.ctx.opword(base[1]))
             if base != ("ref_mem",):
                 raise Unsupported("field projection through a non-Memory reference: " + place)
-            k = int(m.group(2))
             kind = "ptr" if k == 0 else "bv"
             return (kind, path.mem[k])
         m = re.fullmatch(r"\((_\d+)\.(\d+): [^)]*\)", place)
@@ -158,6 +172,10 @@ class Exec:
                  "const i64::MIN": -(1 << 63), "const i64::MAX": (1 << 63) - 1, "const u64::MAX": (1 << 64) - 1}
         if op in named:
             return ("bv", bv(named[op]))
+        if op == "const SAFE":
+            return ("bool", "true")   # the checked instantiation (SAFE = true) is the one analysed
+        if op == "const <C as CellType>::ZERO":
+            return ("cellzero",)
         if op == "const true":
             return ("bool", "true")
         if op == "const false":
@@ -219,6 +237,14 @@ class Exec:
             m = re.fullmatch(r"&(?:mut )?\(\*(_\d+)\)", rv)
             if m and env.get(m.group(1)) == ("ref_mem",):
                 return ("ref_mem",)
+            if m and isinstance(env.get(m.group(1)), tuple) and env[m.group(1)][0] == "ptr":
+                return ("cellref", env[m.group(1)][1])
+        m = re.fullmatch(r"&(?:mut )?\(\(\(\*(_\d+)\)\.2: runtime::Context<'_, C>\)\.0: runtime::Memory<C>\)", rv)
+        if m and env.get(m.group(1)) == ("ref_ops",):
+            return ("ref_mem",)
+        m = re.fullmatch(r"&(_\d+)", rv)
+        if m and m.group(1) in env:
+            return ("ref", env[m.group(1)])
         return self.operand(rv, env, path)
 
     def operand_signed(self, op, env):
@@ -256,6 +282,26 @@ class Exec:
             return [(("ptr", "(bvadd %s (bvmul %s %s))" % (smt_of(a[0]), smt_of(a[1]), bv(self.ctx.w))), path)]
         if re.search(r"mut_ptr::<impl \*mut C>::(wrapping_offset|offset)$", c):
             return [(("ptr", "(bvadd %s (bvmul %s %s))" % (smt_of(a[0]), smt_of(a[1]), bv(self.ctx.w))), path)]
+        if re.search(r"const_ptr::<impl \*const OpCode<C>>::add$", c):
+            base = a[0]
+            k0 = base[1] if isinstance(base, tuple) and base[0] == "ipref" else None
+            m2 = re.fullmatch(r"\(_ bv(\d+) 64\)", smt_of(a[1]))
+            if k0 is None or not m2:
+                raise Unsupported("instruction pointer arithmetic: " + c)
+            return [(("ipref", k0 + int(m2.group(1))), path)]
+        if c.endswith("<C as PartialEq>::ne") or c.endswith("<C as PartialEq>::eq"):
+            x, y = a[0], a[1]
+            if not (x[0] == "cellref" and y == ("ref", ("cellzero",))):
+                raise Unsupported("cell comparison other than *ptr != ZERO")
+            p2 = path.clone()
+            # the cell is read through the pointer: record where, and in which block
+            p2.events.append(("read", x[1], p2.mem[0], p2.mem[1]))
+            b = self.ctx.fresh("cell_nonzero", "Bool")
+            return [(("bool", b if c.endswith("ne") else "(not %s)" % b), p2)]
+        if re.fullmatch(r"noop::<C>", c):
+            p2 = path.clone()
+            p2.events.append(("dispatch", smt_of(a[1]), a[2]))
+            return [(("dispatched",), p2)]
         if c.endswith("mut_ptr::<impl *mut C>::is_null"):
             return [(("bool", "(= %s %s)" % (smt_of(a[0]), bv(0))), path)]
         if c.endswith("size_of::<C>"):
@@ -301,7 +347,7 @@ class Exec:
             return []
         # calls between translated functions
         for name, fn in self.fns.items():
-            if c.endswith("::" + name) or c.endswith(">::" + name):
+            if c.endswith("::" + name) or c.endswith(">::" + name) or c == name + "::<C>":
                 sub = Exec(self.mir, self.ctx, self.fns)
                 return sub.run_fn(fn, a, path, collect_panics_into=self.results)
         raise Unsupported("call to " + c)
@@ -325,6 +371,15 @@ class Exec:
     def _exec_block(self, fn, bb, env, path, out, depth):
         if depth > 200:
             raise Unsupported("block depth (loop?) in " + fn["name"])
+        if (fn["name"], bb) in self.ctx.cuts:
+            seen = getattr(path, "visits", {})
+            n = seen.get((fn["name"], bb), 0)
+            if n >= 1:
+                # back at the loop head after one iteration: an inductive cut
+                out.append((("cut", dict(env)), path))
+                return
+            path.visits = dict(seen)
+            path.visits[(fn["name"], bb)] = n + 1
         lines = fn["blocks"][bb]
         env = dict(env)
         for line in lines[:-1]:
@@ -351,6 +406,8 @@ class Exec:
                     else:
                         cond = "(= %s %s)" % (smt_of(v), bv(int(k)))
                     taken_conds.append(cond)
+                if cond in ("(not true)", "false"):
+                    continue
                 p2 = path.clone()
                 p2.cond.append(cond)
                 self._exec_block(fn, dest, env, p2, out, depth + 1)
@@ -460,9 +517,17 @@ def main():
             fns[name]["name"] = ">::" + name
         out["functions_encoded"] = ["hpbf::runtime::Memory::<C>::" + n + " (from MIR)" for n in fns]
         out["mir_blocks"] = {n: len(f["blocks"]) for n, f in fns.items()}
+        check_layout_assumptions()
+        for name in ("checkl", "checkr", "movl", "movr", "scanl", "scanr"):
+            fns[name] = find_fn(mir, name)
+            fns[name]["name"] = name
+            out["functions_encoded"].append("hpbf::exec::bcint::ops::" + name + "::<C" + (", SAFE = true>" if name[0] in "ms" else ">") + " (from MIR)")
+            out["mir_blocks"][name] = len(fns[name]["blocks"])
         widths = [1, 2, 4, 8]
         for wb in widths:
             lemmas_for_width(mir, fns, wb, out, tier)
+            ops_lemmas_for_width(mir, fns, wb, out, tier)
+        finish(out)
     except Unsupported as e:
         out["inconclusive"].append("MIR construct outside the translator: %s" % e)
     out["wall_s"] = round(time.time() - t0, 1)
@@ -472,6 +537,29 @@ def main():
     if out["inconclusive"]:
         sys.exit(2)
     sys.exit(0)
+
+
+def check_layout_assumptions():
+    """The translator reads MIR field indices; tie them to the names in the current source."""
+    src = open(os.path.join(REPO, "src/exec/bcint/mod.rs")).read()
+    m = re.search(r"pub struct OpsContext<[^>]*>\s*\{([^}]*)\}", src)
+    fields = re.findall(r"^\s*(?:pub(?:\([^)]*\))?\s+)?(\w+)\s*:", m.group(1), re.M) if m else []
+    if fields[:3] != ["min_accessed", "max_accessed", "context"]:
+        raise Unsupported("OpsContext fields are not (min_accessed, max_accessed, context, ..): %r" % fields)
+    src = open(os.path.join(REPO, "src/runtime.rs")).read()
+    m = re.search(r"pub struct Context<[^>]*>\s*\{([^}]*)\}", src)
+    fields = re.findall(r"^\s*(?:pub(?:\([^)]*\))?\s+)?(\w+)\s*:", m.group(1), re.M) if m else []
+    if fields[:1] != ["memory"]:
+        raise Unsupported("Context's first field is not `memory`: %r" % fields)
+    m = re.search(r"pub struct Memory<[^>]*>\s*\{([^}]*)\}", src)
+    fields = re.findall(r"^\s*(?:pub(?:\([^)]*\))?\s+)?(\w+)\s*:", m.group(1), re.M) if m else []
+    if fields[:3] != ["buffer", "size", "offset"]:
+        raise Unsupported("Memory fields are not (buffer, size, offset): %r" % fields)
+    src = open(os.path.join(REPO, "src/exec/bcint/ops.rs")).read()
+    m = re.search(r"pub union OpCode<[^>]*>\s*\{([^}]*)\}", src)
+    fields = re.findall(r"^\s*(?:pub(?:\([^)]*\))?\s+)?(\w+)\s*:", m.group(1), re.M) if m else []
+    if len(fields) < 2 or fields[1] != "off":
+        raise Unsupported("OpCode union member 1 is not `off`: %r" % fields)
 
 
 def pre_state(ctx):
@@ -560,39 +648,163 @@ def lemmas_for_width(mir, fns, wb, out, tier):
     out.setdefault("paths", {})["w%d" % wb] = n_paths
 
 
-def obligation(out, ctx, wb, name, cond, negated_goal, mem, args):
-    script = "(set-logic ALL)\n" + "\n".join(ctx.decls) + "\n"
+def ops_lemmas_for_width(mir, fns, wb, out, tier):
+    """L5: the pointer-moving ops of the bytecode interpreter (checked instantiation) keep the
+    access window inside the block and denote the right logical cell, for every geometry."""
+    B = 1 << 40
+    for name in ("movl", "movr", "scanl", "scanr"):
+        left = name.endswith("l")
+        scan = name.startswith("scan")
+        ctx = Ctx(wb)
+        mem, pre = pre_state(ctx)
+        mn, mx, j0 = ctx.fresh("min_accessed"), ctx.fresh("max_accessed"), ctx.fresh("ptr_cell")
+        ctx.ops = {0: mn, 1: mx}
+        w = bv(wb)
+        m0 = "(bvadd %s (bvmul %s %s))" % (mem[0], j0, w)
+        shift = ctx.opword(2 if scan else 1)
+        pre = pre + [
+            "(bvsle %s %s)" % (mn, bv(0)), "(bvsge %s %s)" % (mx, bv(0)), "(bvsge %s %s)" % (mn, bv(-B)), "(bvsle %s %s)" % (mx, bv(B)),
+            # the whole window around the pointer is inside the block (the invariant the ops maintain)
+            "(bvsge (bvadd %s %s) %s)" % (j0, mn, bv(0)), "(bvslt (bvadd %s %s) %s)" % (j0, mx, mem[1]), "(bvsge %s %s)" % (j0, bv(0)), "(bvslt %s %s)" % (j0, mem[1]),
+            # the op the code generator of the interpreter picks for this sign of the shift
+            ("(and (bvslt %s %s) (bvsge %s %s))" % (shift, bv(0), shift, bv(-B))) if left else ("(and (bvsge %s %s) (bvsle %s %s))" % (shift, bv(0), shift, bv(B))),
+        ]
+        if scan:
+            cond = ctx.opword(1)
+            pre.append("(and (bvsle %s %s) (bvsle %s %s))" % (mn, cond, cond, mx))   # C11: every operand is inside the window
+            ctx.cuts = {(name, "bb3")}
+            head = fns[name]["blocks"].get("bb2", [""])[-1]
+            if head != "goto -> bb3;":
+                raise Unsupported("loop head of %s is not bb3" % name)
+        ex = Exec(mir, ctx, fns)
+        conts = ex.run_fn(fns[name], [("ref_ops",), ("ptr", m0), ("ipref", 0), ("cellzero",), ("cellzero",)], Path(ctx, mem, pre))
+        args = (j0, shift)
+        for (p, _) in ex.results:
+            if p.panics and p.panics.startswith("overflow/arith"):
+                obligation(out, ctx, wb, "L5a %s: `%s` cannot fail" % (name, p.panics[:60]), p.cond, [], mem, args)
+        n_cut = n_disp = 0
+        for (rv, p) in conts:
+            # every cell read happens inside the block owned at that moment
+            for ev in p.events:
+                if ev[0] == "read":
+                    g = "(and (bvule %s %s) (bvult %s (bvadd %s (bvmul %s %s))))" % (ev[2], ev[1], ev[1], ev[2], ev[3], w)
+                    obligation(out, ctx, wb, "L5 %s: the loop condition reads a cell inside the block" % name, p.cond, ["(not %s)" % g], mem, args)
+            if rv[0] == "cut":
+                n_cut += 1
+                r = smt_of(rv[1]["_2"])
+                moved = True
+            elif rv == ("dispatched",):
+                n_disp += 1
+                d = [ev for ev in p.events if ev[0] == "dispatch"][-1]
+                r = d[1]
+                want_ip = 3 if scan else 2
+                if d[2] != ("ipref", want_ip):
+                    out["violations"].append({"lemma": "L5 %s: the next instruction is at ip + %d" % (name, want_ip), "cell_bytes": wb, "answer": "sat", "solver": "structural", "seconds": 0, "model": repr(d[2])})
+                moved = not scan
+            else:
+                raise Unsupported("unexpected end of %s: %r" % (name, rv))
+            buf2, size2 = p.mem[0], p.mem[1]
+            lo = "(bvadd %s (bvmul %s %s))" % (r, mn, w)
+            hi = "(bvadd %s (bvmul %s %s))" % (r, mx, w)
+            end2 = "(bvadd %s (bvmul %s %s))" % (buf2, size2, w)
+            inside = "(and (bvule %s %s) (bvult %s %s) (bvule %s %s) (bvult %s %s))" % (buf2, lo, lo, end2, buf2, hi, hi, end2)
+            obligation(out, ctx, wb, "L5 %s: the whole access window around the new pointer is inside the (new) block" % name, p.cond, ["(not %s)" % inside], mem, args)
+            allocs = [ev for ev in p.events if ev[0] == "alloc"]
+            copies = [ev for ev in p.events if ev[0] == "copy"]
+            target = "(bvadd %s (bvmul %s %s))" % (m0, shift, w) if moved else m0
+            if allocs:
+                if len(copies) != 1:
+                    goal = "false"
+                else:
+                    # same distance from the copied old block as before from the old buffer
+                    goal = "(= (bvsub %s %s) (bvsub %s %s))" % (r, copies[0][2], target, mem[0])
+            else:
+                goal = "(and (= %s %s) (= %s %s) (= %s %s))" % (r, target, buf2, mem[0], size2, mem[1])
+            obligation(out, ctx, wb, "L5 %s: the new pointer denotes the %s logical cell (%s)" % (name, "moved" if moved else "same", "after a reallocation" if allocs else "no reallocation"), p.cond, ["(not %s)" % goal], mem, args)
+        # vacuity witnesses: the shortest path with a reallocation and the shortest without must be feasible
+        for want_alloc in (True, False):
+            cands = [p for (rv, p) in conts if (rv[0] == "cut" or not scan) and bool([e for e in p.events if e[0] == "alloc"]) == want_alloc]
+            if not cands:
+                raise Unsupported("%s: no path %s a reallocation" % (name, "with" if want_alloc else "without"))
+            found = False
+            for p in sorted(cands, key=lambda p: len(p.cond)):
+                obligation(out, ctx, wb, "W %s: a path %s reallocation is feasible [%d conds]" % (name, "with" if want_alloc else "without", len(p.cond)), p.cond, [], mem, args, expect="sat-any:%s:%d:%s" % (name, wb, want_alloc))
+        if (scan and (n_cut == 0 or n_disp == 0)) or (not scan and n_disp == 0):
+            raise Unsupported("%s: expected paths missing (cuts %d, dispatches %d)" % (name, n_cut, n_disp))
+        out.setdefault("ops_paths", {})["%s/w%d" % (name, wb)] = {"returning": len(conts), "loop_cuts": n_cut, "panic_paths": len(ex.results)}
+
+
+_PENDING = []
+_POOL = None
+
+
+def obligation(out, ctx, wb, name, cond, negated_goal, mem, args, expect="unsat"):
+    """Queue one query (decided in parallel by finish()).  expect="sat" marks a vacuity witness:
+    the path condition itself must be satisfiable."""
+    global _POOL
+    if _POOL is None:
+        import concurrent.futures
+        _POOL = concurrent.futures.ThreadPoolExecutor(max_workers=int(os.environ.get("VERIF_THREADS", "8")))
+    decls = "\n".join(ctx.decls)
+    script = "(set-logic ALL)\n" + decls + "\n"
     for c in cond:
         script += "(assert %s)\n" % c
     for g in negated_goal:
         script += "(assert %s)\n" % g
     script += "(check-sat)\n(get-value (%s %s %s %s %s))\n" % (mem[0], mem[1], mem[2], args[0], args[1])
-    ans, solver, dt, text, all_results = solve(script)
-    rec = {"lemma": name, "cell_bytes": wb, "answer": ans, "solver": solver, "seconds": round(dt, 2)}
-    out["lemmas"].append(rec)
-    if ans == "sat":
-        rec["model"] = text.split("\n", 1)[1] if "\n" in text else ""
-        # ask for a geometry small enough to replay natively through the public API
-        small = "(set-logic ALL)\n" + "\n".join(ctx.decls) + "\n"
-        for c in cond:
-            small += "(assert %s)\n" % c
-        for g in negated_goal:
-            small += "(assert %s)\n" % g
-        small += "(assert (bvule %s %s))\n" % (mem[1], bv(4096))
-        small += "(assert (and (bvsge %s %s) (bvsle %s %s)))\n" % (mem[2], bv(-4096), mem[2], bv(4096))
-        for a in set(args):
-            small += "(assert (and (bvsge %s %s) (bvsle %s %s)))\n" % (a, bv(-4096), a, bv(4096))
-        small += "(check-sat)\n(get-value (%s %s %s %s))\n" % (mem[1], mem[2], args[0], args[1])
-        a2, _, _, t2, _ = solve(small)
-        if a2 == "sat":
-            vals = [int(x, 2) for x in re.findall(r"#b([01]{64})", t2)]
-            vals = [v - (1 << 64) if v >= (1 << 63) else v for v in vals]
-            if len(vals) >= 4:
-                rec["small"] = {"cell_bytes": wb, "size": vals[0], "offset": vals[1], "a": vals[2], "b": vals[3]}
-        out["violations"].append(rec)
-    elif ans != "unsat":
-        rec["solver_outputs"] = [r[3][:300] for r in all_results]
-        out["inconclusive"].append("%s (cell %d bytes): no solver decided it (%s)" % (name, wb, ", ".join("%s:%s" % (r[1], r[0]) for r in all_results)))
+    rec = {"lemma": name, "cell_bytes": wb}
+    if ctx.ops:
+        rec["_extra_values"] = [ctx.ops[0], ctx.ops[1]] + ([ctx.opwords[1]] if (2 in ctx.opwords) else [])
+    _PENDING.append((rec, _POOL.submit(solve, script), decls, list(cond), list(negated_goal), dict(mem), tuple(args), expect))
+
+
+def finish(out):
+    for rec, fut, decls, cond, negated_goal, mem, args, expect in _PENDING:
+        ans, solver, dt, text, all_results = fut.result()
+        rec.update({"answer": ans, "solver": solver, "seconds": round(dt, 2)})
+        if expect.startswith("sat-any:"):
+            grp = out.setdefault("_witness_groups", {}).setdefault(expect, [])
+            grp.append(ans)
+            out.setdefault("vacuity_witnesses", []).append(rec)
+            continue
+        if expect == "sat":
+            out.setdefault("vacuity_witnesses", []).append(rec)
+            if ans != "sat":
+                out["inconclusive"].append("vacuity witness `%s` (cell %d bytes) is not satisfiable (%s): the lemmas over this path would hold vacuously" % (rec["lemma"], rec["cell_bytes"], ans))
+            continue
+        out["lemmas"].append(rec)
+        if ans == "sat":
+            rec["model"] = text.split("\n", 1)[1] if "\n" in text else ""
+            # ask for a geometry small enough to replay natively through the public API
+            small = "(set-logic ALL)\n" + decls + "\n"
+            for c in cond:
+                small += "(assert %s)\n" % c
+            for g in negated_goal:
+                small += "(assert %s)\n" % g
+            small += "(assert (bvule %s %s))\n" % (mem[1], bv(4096))
+            small += "(assert (and (bvsge %s %s) (bvsle %s %s)))\n" % (mem[2], bv(-4096), mem[2], bv(4096))
+            for a in set(args):
+                small += "(assert (and (bvsge %s %s) (bvsle %s %s)))\n" % (a, bv(-4096), a, bv(4096))
+            extra = rec.get("_extra_values", [])
+            for e in extra:
+                small += "(assert (and (bvsge %s %s) (bvsle %s %s)))\n" % (e, bv(-64), e, bv(64))
+            small += "(check-sat)\n(get-value (%s %s %s %s%s))\n" % (mem[1], mem[2], args[0], args[1], "".join(" " + e for e in extra))
+            a2, _, _, t2, _ = solve(small)
+            if a2 == "sat":
+                vals = [int(x, 2) for x in re.findall(r"#b([01]{64})", t2)]
+                vals = [v - (1 << 64) if v >= (1 << 63) else v for v in vals]
+                if len(vals) >= 4:
+                    rec["small"] = {"cell_bytes": rec["cell_bytes"], "size": vals[0], "offset": vals[1], "a": vals[2], "b": vals[3], "extra": vals[4:]}
+            rec.pop("_extra_values", None)
+            out["violations"].append(rec)
+        elif ans != "unsat":
+            rec["solver_outputs"] = [r[3][:300] for r in all_results]
+            out["inconclusive"].append("%s (cell %d bytes): no solver decided it (%s)" % (rec["lemma"], rec["cell_bytes"], ", ".join("%s:%s" % (r[1], r[0]) for r in all_results)))
+        rec.pop("_extra_values", None)
+    for g, answers in out.pop("_witness_groups", {}).items():
+        if "sat" not in answers:
+            out["inconclusive"].append("no feasible path in witness group %s (%s): the lemmas of that group would hold vacuously" % (g, answers))
+    del _PENDING[:]
 
 
 if __name__ == "__main__":
